@@ -1,6 +1,6 @@
 //! Small-scope grammar of well-formed HTTP/1.x heads (shared by C05, C20, C12).
 
-pub const FIELD_POOL: [&[u8]; 10] = [
+pub const FIELD_POOL: [&[u8]; 13] = [
     b"Location: /caf\xe9/\xfcber",
     b"A: 1",
     b"A: 2",
@@ -11,6 +11,9 @@ pub const FIELD_POOL: [&[u8]; 10] = [
     b"Location: /x",
     b"Content-Length: 3",
     b"Set-Cookie: a=b",
+    b"Transfer-Encoding: chunked",
+    b"Connection: keep-alive",
+    b"connection: Upgrade",
 ];
 
 pub const STATUSES: [u16; 12] = [101, 200, 204, 299, 301, 302, 304, 307, 399, 404, 500, 999];
